@@ -27,6 +27,8 @@ class TaskScenario(ScenarioData):
         self._selectedResources: Optional[list[Any]] = None
         self._lastBookedResource: Optional[Any] = None
         self._lastBookedSlot: Optional[int] = None
+        # Slot that contains the dependency bound; the intra-slot start offset applies there only
+        self._offsetSlotIdx: Optional[int] = None
 
         # Ensure required attributes exist
         required_attrs = [
@@ -90,6 +92,7 @@ class TaskScenario(ScenarioData):
         self.doneEffort = 0.0
         self.scheduled = False
         self._selectedResources = None  # Reset alternative resource selection
+        self._offsetSlotIdx = None
 
         # Track exact start time within a slot (for mid-slot dependency starts)
         # This is the number of seconds into the slot where we should start booking
@@ -520,6 +523,8 @@ class TaskScenario(ScenarioData):
                     else:
                         self.slotStartOffset = 0.0
                     self.currentSlotIdx = slot_idx
+                    # The offset is only meaningful in the slot that contains the bound
+                    self._offsetSlotIdx = slot_idx
             else:
                 # ALAP (backward) scheduling
                 end_date = self.property.get("end", self.scenarioIdx)
@@ -1340,7 +1345,12 @@ class TaskScenario(ScenarioData):
 
                     slot_idx = self.currentSlotIdx if self.currentSlotIdx is not None else 0
                     start_date = self.project.idxToDate(slot_idx)
-                    if start_date is not None and hasattr(self, "slotStartOffset") and self.slotStartOffset > 0:
+                    if (
+                        start_date is not None
+                        and hasattr(self, "slotStartOffset")
+                        and self.slotStartOffset > 0
+                        and slot_idx == self._offsetSlotIdx
+                    ):
                         start_date = start_date + timedelta(seconds=self.slotStartOffset)
                     self.property[("start", self.scenarioIdx)] = start_date
 
@@ -1410,7 +1420,12 @@ class TaskScenario(ScenarioData):
 
         # For the FIRST slot of this task, apply start offset from dependency
         # This marks the portion already used by predecessor as unavailable
-        if hasattr(self, "slotStartOffset") and self.slotStartOffset > 0 and self.doneEffort == 0:
+        if (
+            hasattr(self, "slotStartOffset")
+            and self.slotStartOffset > 0
+            and self.doneEffort == 0
+            and self.currentSlotIdx == self._offsetSlotIdx
+        ):
             # Mark the offset portion as used (by predecessor task)
             current_used = res_scenario.slotSecondsUsed.get(self.currentSlotIdx, 0.0)
             if current_used < self.slotStartOffset:
